@@ -4,6 +4,7 @@
 
 mod core;
 mod enc;
+mod faults;
 mod fml;
 mod gen;
 mod model;
@@ -57,7 +58,9 @@ fn main() {
         let seed = v["seed"].as_u64().unwrap_or(0);
         monitor::install_panic_hook();
         println!("replaying {} class {}", prop.id(), v["class"]);
-        let ctx = Ctx { tier, seed, skip: 0, verbose: true };
+        // fault-enumeration cases carry their index inside the unit: resume there
+        let skip = if prop.level() == "fault_enumeration" { v["detail"]["case"].as_u64().unwrap_or(0) } else { 0 };
+        let ctx = Ctx { tier, seed, skip, verbose: true };
         let units: Vec<u64> = match unit {
             Some(u) => vec![u],
             None => (0..prop.units(tier)).collect(),
